@@ -405,11 +405,23 @@ class OrderAnalyzer(Analyzer):
         if (m in PASSTHROUGH_FUNCS and not (is_attr and m in ('format',))) or cn in ('os.path.join', 'itertools.chain', 'T.cast', 'copy.copy', 'copy.deepcopy'):
             return self.use_verdict(call, fc, depth + 1)
         fns = self.callees(call, fc)
+        if not fns and cn:
+            # constructor of a repository class: the __init__ parameter summary, or a dataclass-style record that keeps the value
+            rc = self.res.resolve_cls(fc.mod, cn) if fc.owner(cn.split('.')[0]) is None else None
+            if cn == 'cls' and fc.cls is not None and list(fc.params)[:1] == ['cls']:
+                rc = (fc.mod, fc.cls)       # cls(...) inside a classmethod
+            if rc is not None:
+                init = self.repo.find_method(rc[0], rc[1], '__init__')
+                if init is not None:
+                    fns = [init]
+                elif seq:
+                    return ('escapes', f'`{short(arg, 50)}` is kept in a field of the {rc[1].name}(...) record')
         if not fns:
             self.calls_unresolved += 1
-            if seq:
-                return ('escapes', f'`{short(arg, 50)}` is handed to {short(call.func, 40)}() (not a known order-insensitive consumer)')
-            return ('unknown', f'passed to unresolved {short(call.func, 40)}()')
+            if seq and (m in ('write', 'writelines', 'dump', 'dumps', 'print') or cn in ('json.dump', 'json.dumps', 'pickle.dump', 'pickle.dumps')):
+                return ('escapes', f'`{short(arg, 50)}` is written out by {short(call.func, 40)}()')
+            # closed world: a callee the analysis cannot read may sort or discard the order - not a finding
+            return ('unknown', f'`{short(arg, 50)}` is handed to {short(call.func, 40)}(), which is not resolved')
         self.calls_resolved += 1
         if depth >= 8:
             return ('unknown', 'interprocedural depth')
